@@ -408,9 +408,9 @@ func (w *faultyStream) Write(p []byte) (int, error) {
 func runFileSinkSpecial(rc *RunCtx) {
 	tp := rc.Tape
 	sim := rc.Sim
-	var outBuf, errBuf bytes.Buffer
-	fso := &faultyStream{buf: &outBuf, fail: map[int]int{}}
-	fse := &faultyStream{buf: &errBuf, fail: map[int]int{}}
+	outBuf, errBuf := new(bytes.Buffer), new(bytes.Buffer)
+	fso := &faultyStream{buf: outBuf, fail: map[int]int{}}
+	fse := &faultyStream{buf: errBuf, fail: map[int]int{}}
 	if tp.Choose(3, "stream-faults") == 0 {
 		for k := 0; k < 2; k++ {
 			wn := 1 + tp.Choose(6, "fail-write")
@@ -427,6 +427,23 @@ func runFileSinkSpecial(rc *RunCtx) {
 	var problems []string
 	sim.Spawn("special", func() {
 		for i := 0; i < n; i++ {
+			if i > 0 && path != "/dev/null" && tp.Choose(4, "swap-streams") == 0 {
+				// the program re-assigns os.Stdout / os.Stderr (output capture, a daemon re-opening its log):
+				// what the old streams received so far is judged now, later events belong to the new ones
+				got := outBuf.Bytes()
+				if path == "/dev/stderr" {
+					got = errBuf.Bytes()
+				}
+				if !bytes.Equal(got, want) {
+					problems = append(problems, fmt.Sprintf("%s received %q before the streams were re-assigned, expected %q", path, got, want))
+				}
+				outBuf, errBuf = new(bytes.Buffer), new(bytes.Buffer)
+				fso = &faultyStream{buf: outBuf, fail: map[int]int{}, failed: fso.failed}
+				fse = &faultyStream{buf: errBuf, fail: map[int]int{}, failed: fse.failed}
+				simrt.SimStdout, simrt.SimStderr = fso, fse
+				want = nil
+				simrt.Probe("special.streams-reassigned")
+			}
 			data := []byte(fmt.Sprintf("special-%d\n", i))
 			hasFmt := tp.Choose(4, "hasfmt") != 0
 			ev := &el.Event{Type: "t", Formatted: map[string][]byte{}}
